@@ -186,6 +186,9 @@ impl Oracle {
                 };
                 let bound = (3 * self.cfg.maxc as u64 + 3) * tmax + delay;
                 if o.st == TransactionState::Active && o.res == "ok" {
+                    if it < k && !self.is_recv && self.cfg.mode == TransmissionMode::Unacknowledged && self.cfg.closure {
+                        self.fail(orc, "C18", k, "unacknowledged sender with closure waits for the Finished PDU without any limit (no timer running)".into());
+                    }
                     if it < k {
                         self.fail(orc, "C03", k, format!("transaction stuck after {it} loop iterations: active, nothing to send and no timer running"));
                     } else if !lenient {
@@ -524,6 +527,17 @@ impl Oracle {
                 }
             }
         }
+        // ---- C09: in acknowledged mode the file is verified only once it is judged complete; a checksum
+        //      verification (visible as its failure) while a byte of [0, file size) is missing means the
+        //      receiver's account of what it holds was wrong
+        if acked {
+            if let Some(fs) = self.eof_size {
+                let all = complement(&norm(&self.held), 0, fs).is_empty();
+                if !all && o.inds.iter().any(|i| matches!(i, Indication::Fault(f) if f.condition == Condition::FileChecksumFailure)) {
+                    self.fail(orc, "C09", k, format!("the file was judged complete and verified although the bytes {:?} were never received", complement(&norm(&self.held), 0, fs)));
+                }
+            }
+        }
         // ---- Finished indications
         for i in &o.inds {
             match i {
@@ -540,6 +554,10 @@ impl Oracle {
                         if !self.md_seen || (f.file_status == FileStatusCode::Retained && !all) {
                             let prop = if acked { "C01" } else { "C18" };
                             self.fail(orc, prop, k, format!("complete delivery reported with metadata received={} all bytes held={}", self.md_seen, all));
+                            if self.md_seen {
+                                // the receiver's account of what it holds said "complete" while a byte of the file is missing
+                                self.fail(orc, "C09", k, "the file was judged complete although not every byte of [0, file size) is held".into());
+                            }
                         }
                     }
                     if self.done && (success || matches!(f.report.condition, Condition::FileChecksumFailure | Condition::FilesizeError)) {
@@ -1012,6 +1030,38 @@ pub fn gen_recv(seed: u64, tier: &str, w: &mut impl Write, stats: &mut Stats) {
             script.push("TIMEOUT".into());
             script.push("SEND".into());
             script.push("IDLE 300".into());
+        }
+        if flen > p.seg && r.chance(1, 25) {
+            // targeted family: one segment is lost for good, and as much stray data arrives beyond the end of
+            // the file (before or after the EOF): the receiver holds at least "file size" bytes, not the file
+            stats.inc("script_hole_plus_data_beyond_eof");
+            script.clear();
+            truthful = false;
+            let lost = r.below(data_ops.len() as u64) as usize;
+            script.push(base[0].clone());
+            let stray = format!("PDU FD {} {}", flen + r.below(3) * p.seg, hex(&r.bytes(p.seg as usize)));
+            let stray_first = r.chance(1, 2);
+            for (i, d) in data_ops.iter().enumerate() {
+                if i != lost {
+                    script.push(d.clone());
+                }
+            }
+            if stray_first {
+                script.push(stray.clone());
+            }
+            script.push(format!("PDU EOF 0 {} {} -", cks(&p.file, p.ck), flen));
+            script.push("SEND".into());
+            if !stray_first {
+                script.push(stray.clone());
+            }
+            for _ in 0..3 {
+                script.push("SEND".into());
+            }
+            script.push(format!("ADV {}", p.tn * 1000));
+            script.push("TIMEOUT".into());
+            script.push("SEND".into());
+            script.push("SEND".into());
+            script.push("IDLE 200".into());
         }
         let truth = if truthful { format!(" truth={}", hex(&p.file)) } else { String::new() };
         stats.inc(if truthful { "cases_truthful_inputs" } else { "cases_untruthful_inputs" });
